@@ -196,7 +196,7 @@ func init() {
 	})
 	Register(&PropSpec{
 		ID: "C10", Level: "exploration",
-		Rule: "entry point x caller identity: every gateway-only precompile method (deposit, withdraw, delegate, undelegate, associate, dissociate, client-chain and token registration/update) is called by the configured gateway and by another funded account with the same well-formed payload; price submissions by validators, former validators, outsiders and with garbage / foreign / missing signatures or another key's public key; operator messages signed by another account for the victim's address; parameter updates of dogfood, oracle, mint, fee-distribution and assets by a non-governance account on mainnet and testnet chain ids; issued at random points of C01/C12 histories so identities (validator set, gateway) are state-dependent; an unauthorised call must report rejection AND leave the restaking stores and the in-memory oracle state byte-identical; non-trivial = >= 8 unauthorised attempts across >= 4 entry points",
+		Rule: "entry point x caller identity: every gateway-only precompile method (deposit, withdraw, delegate, undelegate, associate, dissociate, client-chain and token registration/update) is called by the configured gateway and by another funded account with the same well-formed payload; price submissions by validators, former validators, outsiders and with garbage / foreign / missing signatures, without any signer info, or with another key's public key; operator messages signed by another account for the victim's address; parameter updates of dogfood, oracle, mint, fee-distribution and assets by a non-governance account on mainnet and testnet chain ids; issued at random points of C01/C12 histories so identities (validator set, gateway) are state-dependent; an unauthorised call must report rejection AND leave the restaking stores and the in-memory oracle state byte-identical; non-trivial = >= 8 unauthorised attempts across >= 4 entry points",
 		Assumptions: append([]string{"in a third of the runs the configured gateway is a forwarder contract (CALL), so the same account is authorised through the contract and unauthorised when it calls the precompile directly; DELEGATECALL / STATICCALL frames are not exercised", "AVS entry points are added with the C20 workload"}, ledgerAssumptions...),
 		QuickRuns:   500, ThoroughRuns: 8000,
 		GenConfig: func(p *PRNG, tier string) Config {
